@@ -17,6 +17,7 @@ mod faults;
 mod gen;
 mod kernel;
 mod minimize;
+mod miri;
 mod report;
 mod rng;
 mod triage;
@@ -107,6 +108,17 @@ fn main() {
         usage();
       }
       std::process::exit(replay(&args[2]));
+    }
+    "minimise" => {
+      // minimise <file with one V-line json or a replay file>: prints the minimised world (a building aid)
+      let body: serde_json::Value = serde_json::from_str(&std::fs::read_to_string(&args[2]).expect("read")).expect("json");
+      let v = if body.get("violation").is_some() {
+        Violation { class: body["violation"]["class"].as_str().unwrap_or("").into(), signature: body["violation"]["signature"].as_str().unwrap_or("").into(), world: body["world"].clone(), detail: String::new() }
+      } else {
+        Violation::from_json(&body)
+      };
+      let m = c05t::minimise_world("c05", &v, 120);
+      println!("{}", serde_json::to_string_pretty(&m.to_json()).unwrap());
     }
     "selftest" => {
       let what = args.get(2).map(|s| s.as_str()).unwrap_or("model");
@@ -485,6 +497,79 @@ fn run_c05(seed: u64, tier: Tier) -> i32 {
 }
 
 // ------------------------------------------------------------------------------------------------
+// engine B (Miri) phase shared by C14 and C17
+
+struct MiriPhase {
+  findings: Vec<report::Finding>,
+  harness_errors: Vec<String>,
+  extra: serde_json::Value,
+  runs: u64,
+  distinct: std::collections::BTreeSet<u64>,
+}
+
+fn miri_phase(property: &'static str, kind: &'static str, n_scenarios: usize, seed: u64, tier: Tier) -> MiriPhase {
+  let mut ph = MiriPhase { findings: vec![], harness_errors: vec![], extra: serde_json::json!({}), runs: 0, distinct: Default::default() };
+  if std::env::var("VERIF_NO_MIRI").is_ok() {
+    ph.extra = serde_json::json!({"skipped": "VERIF_NO_MIRI set"});
+    return ph;
+  }
+  let (n_scn, n_seeds) = match tier {
+    Tier::Quick => (if kind == "c14" { 2 } else { 1 }, 3u64),
+    Tier::Thorough => (n_scenarios, 16u64),
+  };
+  let lo = (seed % 1_000_000) * 64;
+  let scns: Vec<usize> = (0..n_scn).map(|k| ((seed as usize) + k) % n_scenarios).collect();
+  // build once (a trivial scenario under Miri), then the batches run concurrently
+  let batches: std::sync::Mutex<Vec<miri::MiriBatch>> = std::sync::Mutex::new(Vec::new());
+  if let Err(e) = miri::build() {
+    ph.harness_errors.push(e);
+    return ph;
+  }
+  {
+    let par = if tier == Tier::Quick { scns.len() } else { 2 };
+    let next = std::sync::atomic::AtomicUsize::new(0);
+    std::thread::scope(|sc| {
+      for _ in 0..par {
+        sc.spawn(|| loop {
+          let i = next.fetch_add(1, std::sync::atomic::Ordering::SeqCst);
+          if i >= scns.len() {
+            break;
+          }
+          let b = miri::run_batch(kind, scns[i], lo, lo + n_seeds);
+          batches.lock().unwrap().push(b);
+        });
+      }
+    });
+  }
+  let mut batches = batches.into_inner().unwrap();
+  batches.sort_by_key(|b| b.scenario);
+  let mut per = Vec::new();
+  for b in &batches {
+    if let Some(e) = &b.harness_error {
+      ph.harness_errors.push(format!("miri {} scenario {}: {}", kind, b.scenario, e));
+    }
+    ph.runs += b.results + b.mismatch_lines.len() as u64;
+    for (t, _) in &b.traces {
+      ph.distinct.insert(crate::rng::fnv(format!("{}:{}:{}", kind, b.scenario, t).as_bytes()));
+    }
+    for (run, v) in miri::judge(b, property) {
+      ph.findings.push(report::Finding { run, violation: v });
+    }
+    per.push(serde_json::json!({
+      "scenario": b.scenario, "miri_seeds": format!("{}..{}", b.seeds.0, b.seeds.1), "outcomes": b.results,
+      "digests": b.digests, "native_digest": b.native_digest, "distinct_call_order_traces": b.traces.len(),
+      "traces": b.traces, "failing_seeds": b.failing_seeds, "diagnostics": b.diagnostics, "wall_s": (b.wall_s * 10.0).round() / 10.0,
+    }));
+  }
+  ph.extra = serde_json::json!({
+    "what": "unmodified cddl + dependencies + std interpreted by Miri; the Miri seed owns the thread scheduler (pre-emption rate 0.1 per basic block), addresses and getrandom (all hash keys); data-race and deadlock detection on",
+    "flags": format!("-Zmiri-many-seeds=<lo>..<hi> -Zmiri-preemption-rate={}", miri::PREEMPTION_RATE),
+    "batches": per,
+  });
+  ph
+}
+
+// ------------------------------------------------------------------------------------------------
 // C14 (engine A: native history simulator)
 
 fn run_c14(seed: u64, tier: Tier) -> i32 {
@@ -529,7 +614,21 @@ fn run_c14(seed: u64, tier: Tier) -> i32 {
   });
   let mut minimised = minimised.into_inner().unwrap();
   minimised.sort_by_key(|x| x.0);
-  let findings: Vec<report::Finding> = minimised.into_iter().map(|(run, violation)| report::Finding { run, violation }).collect();
+  let mut findings: Vec<report::Finding> = minimised.into_iter().map(|(run, violation)| report::Finding { run, violation }).collect();
+  eprintln!("phase native done: {:.1}s", t0.elapsed().as_secs_f64());
+  // engine B
+  let ph = miri_phase("C14", "c14", 6, seed, tier);
+  eprintln!("phase miri done: {:.1}s ({} outcomes)", t0.elapsed().as_secs_f64(), ph.runs);
+  findings.extend(ph.findings);
+  agg.harness_errors.extend(ph.harness_errors);
+  agg.evaluations += ph.runs;
+  agg.nontrivial += ph.runs;
+  for d in &ph.distinct {
+    agg.distinct.insert(*d);
+  }
+  *agg.faults.entry("miri_seeded_schedules_and_entropy".into()).or_default() += ph.runs;
+  let mut extra = std::collections::BTreeMap::new();
+  extra.insert("engine_B_miri".to_string(), ph.extra);
   let rep = report::Report {
     property: "C14",
     check: "c14",
@@ -544,7 +643,7 @@ fn run_c14(seed: u64, tier: Tier) -> i32 {
     ],
     real_components: vec!["cddl library of the /repo working tree: validate_json_from_str, validate_cbor_from_slice, validate_csv_from_str, JSONValidator / CBORValidator on a shared AST, cddl_from_str + Display".into(), "all dependencies as locked by /repo/Cargo.lock; real OS threads, real thread-locals and hash keys".into()],
     stub_components: vec!["the scheduler between clients (baton) is the simulator's".into()],
-    extra: Default::default(),
+    extra,
   };
   report::finish(&rep, &agg, findings, t0.elapsed().as_secs_f64(), None, &|_, _| true)
 }
@@ -667,7 +766,20 @@ fn run_c17(seed: u64, tier: Tier) -> i32 {
   });
   let mut minimised = minimised.into_inner().unwrap();
   minimised.sort_by_key(|x| x.0);
-  let findings: Vec<report::Finding> = minimised.into_iter().map(|(run, violation)| report::Finding { run, violation }).collect();
+  let mut findings: Vec<report::Finding> = minimised.into_iter().map(|(run, violation)| report::Finding { run, violation }).collect();
+  eprintln!("phase native done: {:.1}s", t0.elapsed().as_secs_f64());
+  let ph = miri_phase("C17", "c17", 5, seed, tier);
+  eprintln!("phase miri done: {:.1}s ({} outcomes)", t0.elapsed().as_secs_f64(), ph.runs);
+  findings.extend(ph.findings);
+  agg.harness_errors.extend(ph.harness_errors);
+  agg.evaluations += ph.runs;
+  agg.nontrivial += ph.runs;
+  for d in &ph.distinct {
+    agg.distinct.insert(*d);
+  }
+  *agg.faults.entry("miri_seeded_entropy".into()).or_default() += ph.runs;
+  let mut extra = std::collections::BTreeMap::new();
+  extra.insert("engine_B_miri".to_string(), ph.extra);
   let rep = report::Report {
     property: "C17",
     check: "c17",
@@ -682,7 +794,7 @@ fn run_c17(seed: u64, tier: Tier) -> i32 {
     ],
     real_components: vec!["cddl-derive/src/codegen.rs of the /repo working tree".into(), "cddl parser of the /repo working tree".into(), "std RandomState hash keys, real threads, a real fresh process".into()],
     stub_components: vec!["none".into()],
-    extra: Default::default(),
+    extra,
   };
   report::finish(&rep, &agg, findings, t0.elapsed().as_secs_f64(), None, &|p, v| c17::predicate(p, v))
 }
@@ -704,6 +816,16 @@ fn replay(path: &str) -> i32 {
   if check_by_name(check).is_none() {
     eprintln!("HARNESS-ERROR: unknown check {:?} in replay file", check);
     return 2;
+  }
+  if body["world"]["engine"].as_str() == Some("miri") {
+    let (hit, what) = miri::replay(&body["world"], class);
+    println!("replay (miri seed {}): {}", body["world"]["miri_seed"], what);
+    if hit {
+      println!("REPRODUCED property={} class={} signature={}", body["property"].as_str().unwrap_or("?"), class, signature);
+      return 1;
+    }
+    println!("not reproduced");
+    return 0;
   }
   let r = exec_isolated(check, &body["world"], 120);
   let mut hit = false;
